@@ -149,6 +149,7 @@ def run(index, tier="quick", seed=0) -> Result:
     else:
         raise AnalysisError("ELL-1: dependence of Ellipse.distance_to_surface on the semi-axes not recognised")
     _ell2(res, efn)
+    _bin1(res, index)
     from ..labelrule import report as _label
     _label(res, index, lambda cls_, fn_: fn_ == "distance_to_surface" or fn_.startswith("_get_outward"))
     return res
@@ -256,3 +257,74 @@ def _ell2(res, efn):
         res.bad("ELL-2", k, f"{efn.file}:{rets[0].lineno}", "Ellipse.distance_to_surface is not the polar form a b / sqrt((b cos t)^2 + (a sin t)^2) of the ellipse "
                 f"(it agrees on the axes only): found {str(sp.simplify(expr))[:100]}")
 
+
+
+
+def _fold_float(e, env, depth=0):
+    """value of a constant float expression over literals, np.pi / math.pi and single-assignment local constants"""
+    import math
+    if depth > 6:
+        return None
+    if isinstance(e, ast.Constant) and isinstance(e.value, (int, float)) and not isinstance(e.value, bool):
+        return float(e.value)
+    if isinstance(e, ast.Attribute) and ast.unparse(e) in ("np.pi", "math.pi", "numpy.pi"):
+        return math.pi
+    if isinstance(e, ast.Name) and e.id in env:
+        return _fold_float(env[e.id], env, depth + 1)
+    if isinstance(e, ast.UnaryOp) and isinstance(e.op, ast.USub):
+        v = _fold_float(e.operand, env, depth + 1)
+        return None if v is None else -v
+    if isinstance(e, ast.BinOp) and isinstance(e.op, (ast.Add, ast.Sub, ast.Mult, ast.Div)):
+        a, b = _fold_float(e.left, env, depth + 1), _fold_float(e.right, env, depth + 1)
+        if a is None or b is None:
+            return None
+        if isinstance(e.op, ast.Add):
+            return a + b
+        if isinstance(e.op, ast.Sub):
+            return a - b
+        if isinstance(e.op, ast.Mult):
+            return a * b
+        return a / b if b else None
+    return None
+
+
+def _bin1(res, index):
+    """BIN-1: the half-open angular sectors [lo_i, hi_i) of ConvexPolygon.distance_to_surface cover the whole closed range
+    of `np.mod(angles, 2 pi)`. np.mod returns exactly 2 pi for tiny negative arguments (the remainder -1e-17 + 2 pi rounds
+    to 2 pi), so the constant stored as the upper end of the last sector must exceed 2 pi when it is compared with `<`;
+    an angle that falls into no sector keeps the uninitialised entry of np.empty_like. Decided only for the formulation
+    "upper ends = np.roll(lower ends, -1) with the last entry overwritten by a constant"; anything else gives no verdict."""
+    import math
+    from ..astutil import single_assignments
+    cls = index.cls("ConvexPolygon")
+    fn = cls.methods.get("distance_to_surface")
+    if fn is None:
+        res.not_in_fragment.append("BIN-1: ConvexPolygon has no own distance_to_surface")
+        return
+    env = single_assignments(fn.node)
+    rolled = {n.targets[0].id for n in ast.walk(fn.node) if isinstance(n, ast.Assign) and len(n.targets) == 1 and isinstance(n.targets[0], ast.Name)
+              and isinstance(n.value, ast.Call) and ast.unparse(n.value.func) in ("np.roll", "numpy.roll")}
+    stores = [n for n in ast.walk(fn.node) if isinstance(n, ast.Assign) and len(n.targets) == 1 and isinstance(n.targets[0], ast.Subscript)
+              and isinstance(n.targets[0].value, ast.Name) and n.targets[0].value.id in rolled and ast.unparse(n.targets[0].slice) == "-1"]
+    if len(stores) != 1:
+        res.not_in_fragment.append("BIN-1: no single store of the last upper sector end")
+        return
+    st = stores[0]
+    upper = st.targets[0].value.id
+    v = _fold_float(st.value, env)
+    if v is None:
+        res.not_in_fragment.append(f"BIN-1: `{ast.unparse(st.value)[:40]}` is not a constant")
+        return
+    cmps = [n for n in ast.walk(fn.node) if isinstance(n, ast.Compare) and len(n.ops) == 1 and isinstance(n.ops[0], (ast.Lt, ast.LtE))
+            and isinstance(n.comparators[0], ast.Subscript) and isinstance(n.comparators[0].value, ast.Name) and n.comparators[0].value.id == upper]
+    if len(cmps) != 1:
+        res.not_in_fragment.append("BIN-1: comparison with the upper sector ends not found")
+        return
+    strict = isinstance(cmps[0].ops[0], ast.Lt)
+    two_pi = 2 * math.pi
+    if v > two_pi or (not strict and v == two_pi):
+        res.ok("BIN-1", "ConvexPolygon.distance_to_surface:last-sector", sample={"upper_end": ast.unparse(st.value), "value": v, "compared_with": "<" if strict else "<="})
+    else:
+        res.bad("BIN-1", "ConvexPolygon.distance_to_surface:last-sector", f"{fn.file}:{st.lineno}", f"the last angular sector ends at `{ast.unparse(st.value)}` "
+                f"(= {v:.6g}) and angles are tested with `{ast.unparse(cmps[0])[:50]}`: np.mod(angle, 2 pi) returns exactly 2 pi for a tiny negative angle "
+                f"(-1e-17 + 2 pi rounds to 2 pi), that angle then lies in no sector and the uninitialised entry of np.empty_like is returned")
